@@ -8,8 +8,11 @@ From Cedar Require Import Typecheck ValueProofs ConformProofs ExprEq TypecheckPr
 Fixpoint in_fragment (e : expr) : bool :=
   match e with
   | Lit _ | Var _ => true
-  | And a b | Or a b | BinApp BEq a b => in_fragment a && in_fragment b
-  | UnApp UNot a => in_fragment a
+  | And a b | Or a b => in_fragment a && in_fragment b
+  | BinApp BEq a b | BinApp BAdd a b | BinApp BSub a b | BinApp BMul a b =>
+      in_fragment a && in_fragment b
+  | UnApp UNot a | UnApp UNeg a => in_fragment a
+  | Like x _ | Is x _ => in_fragment x
   | If c x y => in_fragment c && in_fragment x && in_fragment y && boolish x && boolish y
   | HasAttr x _ | GetAttr x _ => is_path x
   | _ => false
@@ -135,6 +138,106 @@ Section Attr.
       + intros ->. right. rewrite (R1 _ _ (lookup_In _ _ _ Hl)). reflexivity.
   Qed.
 End Attr.
+
+
+(* ---------------------------------------------------------------------------------------
+   arithmetic, like, is *)
+Lemma expect_long t : existsb (subty Permissive t) [TLong] = true -> t = TLong \/ t = TNever.
+Proof. destruct t; cbn; try discriminate; auto. Qed.
+
+Lemma long_value v t : existsb (subty Permissive t) [TLong] = true -> TypeConforms v t -> exists z, v = VLong z.
+Proof.
+  intros Hs Hc. destruct (expect_long _ Hs) as [-> | ->]; [inversion Hc; subst; eauto|exfalso; eapply conf_never; eauto].
+Qed.
+
+Lemma checked_result z :
+  (exists c, checked z = Err c /\ allowed_err c) \/ (exists v, checked z = Ok v /\ TypeConforms v TLong).
+Proof.
+  unfold checked. destruct (in_i64 z).
+  - right. eexists. split; [reflexivity|constructor].
+  - left. eexists. split; [reflexivity|]. right. left. reflexivity.
+Qed.
+
+Lemma sound_neg m sch env q es a : IHfor m sch env q es a -> IHfor m sch env q es (UnApp UNeg a).
+Proof.
+  intros IHa cs t cs' Hcs Htc. cbn [tc] in Htc. get_expect Htc ta ca Ea. inversion Htc; subst. clear Htc.
+  apply expect_inv in Ea. destruct Ea as [Ea Hsa]. destruct (IHa _ _ _ Hcs Ea) as [_ Da].
+  split; [intros _; apply caps_hold_nil|]. unfold dyn_result.
+  change (eval [] q es (UnApp UNeg a)) with (do v <- eval [] q es a; unary_app UNeg v).
+  destruct Da as [(c & He & Hc)|(va & He & Hva & _)].
+  { left. exists c. rewrite He. auto. }
+  destruct (long_value _ _ Hsa Hva) as [z ->].
+  rewrite He. cbn [bind unary_app as_long VLong].
+  destruct (checked_result (- z)) as [(c & Hc & Hal)|(v & Hv & Hcf)].
+  - left. exists c. auto.
+  - right. exists v. split; [exact Hv|]. split; [exact Hcf|]. intros _; apply caps_hold_nil.
+Qed.
+
+Lemma sound_arith m sch env q es op a b :
+  op = BAdd \/ op = BSub \/ op = BMul ->
+  IHfor m sch env q es a -> IHfor m sch env q es b -> IHfor m sch env q es (BinApp op a b).
+Proof.
+  intros Hop IHa IHb cs t cs' Hcs Htc.
+  assert (Htc' : match expect (tc m sch env cs a) [TLong], expect (tc m sch env cs b) [TLong] with
+                 | Some _, Some _ => Some (TLong, []) | _, _ => None end = Some (t, cs')).
+  { destruct Hop as [->|[->| ->]]; exact Htc. }
+  clear Htc. get_expect Htc' ta ca Ea. get_expect Htc' tb cb Eb. inversion Htc'; subst. clear Htc'.
+  apply expect_inv in Ea. destruct Ea as [Ea Hsa]. apply expect_inv in Eb. destruct Eb as [Eb Hsb].
+  destruct (IHa _ _ _ Hcs Ea) as [_ Da]. destruct (IHb _ _ _ Hcs Eb) as [_ Db].
+  split; [intros _; apply caps_hold_nil|]. unfold dyn_result.
+  change (eval [] q es (BinApp op a b)) with
+    (do va <- eval [] q es a; do vb <- eval [] q es b; binary_app es op va vb).
+  destruct Da as [(c & He & Hc)|(va & He & Hva & _)].
+  { left. exists c. rewrite He. auto. }
+  destruct Db as [(c & He2 & Hc)|(vb & He2 & Hvb & _)].
+  { left. exists c. rewrite He, He2. auto. }
+  destruct (long_value _ _ Hsa Hva) as [x ->]. destruct (long_value _ _ Hsb Hvb) as [y ->].
+  rewrite He, He2. cbn [bind].
+  assert (Hr : exists z, binary_app es op (VLong x) (VLong y) = checked z).
+  { destruct Hop as [->|[->| ->]]; eexists; reflexivity. }
+  destruct Hr as [z ->].
+  destruct (checked_result z) as [(c & Hc & Hal)|(v & Hv & Hcf)].
+  - left. exists c. auto.
+  - right. exists v. split; [exact Hv|]. split; [exact Hcf|]. intros _; apply caps_hold_nil.
+Qed.
+
+Lemma sound_like m sch env q es x p : IHfor m sch env q es x -> IHfor m sch env q es (Like x p).
+Proof.
+  intros IHx cs t cs' Hcs Htc. cbn [tc] in Htc. get_expect Htc tx cx Ex. inversion Htc; subst. clear Htc.
+  apply expect_inv in Ex. destruct Ex as [Ex Hsx]. destruct (IHx _ _ _ Hcs Ex) as [_ Dx].
+  split; [intros _; apply caps_hold_nil|]. unfold dyn_result.
+  change (eval [] q es (Like x p)) with (do v <- eval [] q es x; do s <- as_string v; Ok (VBool (wildcard p s))).
+  destruct Dx as [(c & He & Hc)|(v & He & Hv & _)].
+  { left. exists c. rewrite He. auto. }
+  assert (Hs : exists s, v = VString s).
+  { destruct tx; cbn in Hsx; try discriminate Hsx; [exfalso; eapply conf_never; eauto|inversion Hv; subst; eauto]. }
+  destruct Hs as [s ->]. right. exists (VBool (wildcard p s)). rewrite He. split; [reflexivity|].
+  split; [constructor|intros _; apply caps_hold_nil].
+Qed.
+
+Lemma sound_is m sch env q es x et : IHfor m sch env q es x -> IHfor m sch env q es (Is x et).
+Proof.
+  intros IHx cs t cs' Hcs Htc. cbn [tc] in Htc. get_expect Htc tx cx Ex.
+  apply expect_inv in Ex. destruct Ex as [Ex Hsx]. destruct (IHx _ _ _ Hcs Ex) as [_ Dx].
+  assert (Hnil : cs' = []).
+  { destruct tx as [| | | | |[|l]| |]; try discriminate Htc; inversion Htc; reflexivity. }
+  subst cs'. split; [intros _; apply caps_hold_nil|]. unfold dyn_result.
+  change (eval [] q es (Is x et)) with (do v <- eval [] q es x; do u <- as_entity v; Ok (VBool (name_eqb (uty u) et))).
+  destruct Dx as [(c & He & Hc)|(v & He & Hv & _)].
+  { left. exists c. rewrite He. auto. }
+  destruct tx as [| | | | |[|l]| |]; try discriminate Htc.
+  - inversion Hv; subst. inversion Htc; subst. right. eexists. rewrite He. split; [reflexivity|].
+    split; [apply conf_vbool; exact I|intros _; apply caps_hold_nil].
+  - destruct (conf_entity_value _ _ Hv) as (u & -> & Hin). right. exists (VBool (name_eqb (uty u) et)).
+    rewrite He. split; [reflexivity|]. split; [|intros _; apply caps_hold_nil].
+    inversion Htc; subst. clear Htc.
+    destruct (lub_contains l et) eqn:Ec; cbn [negb].
+    + destruct l as [|y [|z l']]; try (apply conf_vbool; exact I).
+      destruct Hin as [Hy|[]]. apply lub_contains_In in Ec. destruct Ec as [Hz|[]]. subst.
+      rewrite name_eqb_refl. constructor.
+    + destruct (name_eqb (uty u) et) eqn:En; [|constructor].
+      apply name_eqb_eq in En. subst et. apply lub_contains_In in Hin. rewrite Hin in Ec. discriminate Ec.
+Qed.
 
 (* ---------------------------------------------------------------------------------------
    has / . on access paths; the main induction *)
@@ -264,11 +367,18 @@ Section Sound.
       apply sound_if; [exact Hbx|exact Hby|apply IHe1; exact Hfc|apply IHe2; exact Hfx|apply IHe3; exact Hfy].
     - apply andb_prop in Hf. destruct Hf as [H1 H2]. apply sound_and; [apply IHe1; exact H1|apply IHe2; exact H2].
     - apply andb_prop in Hf. destruct Hf as [H1 H2]. apply sound_or; [apply IHe1; exact H1|apply IHe2; exact H2].
-    - destruct op; try discriminate Hf. apply sound_not. apply IHe. exact Hf.
-    - destruct op; try discriminate Hf. apply andb_prop in Hf. destruct Hf as [H1 H2].
-      apply sound_eq; [exact Henv|apply IHe1; exact H1|apply IHe2; exact H2].
+    - destruct op; try discriminate Hf.
+      + apply sound_not. apply IHe. exact Hf.
+      + apply sound_neg. apply IHe. exact Hf.
+    - destruct op; try discriminate Hf; apply andb_prop in Hf; destruct Hf as [H1 H2].
+      + apply sound_eq; [exact Henv|apply IHe1; exact H1|apply IHe2; exact H2].
+      + apply sound_arith; [auto|apply IHe1; exact H1|apply IHe2; exact H2].
+      + apply sound_arith; [auto|apply IHe1; exact H1|apply IHe2; exact H2].
+      + apply sound_arith; [auto|apply IHe1; exact H1|apply IHe2; exact H2].
     - apply sound_getattr; [exact Hf|apply IHe; apply is_path_frag; exact Hf].
     - apply sound_hasattr; [exact Hf|apply IHe; apply is_path_frag; exact Hf].
+    - apply sound_like. apply IHe. exact Hf.
+    - apply sound_is. apply IHe. exact Hf.
   Qed.
 
   (* a condition typed False is never satisfied *)
